@@ -161,6 +161,39 @@ Theorem C03_insert_accepts_iff : forall pbytes s c s' b n, ainv pbytes s ->
 Proof. exact insert_accepts_iff. Qed.
 Print Assumptions C03_insert_accepts_iff.
 
+(* ---- exactly [bound - count] further distinct new values fit, from ANY invariant state (whatever the history) ---- *)
+Theorem C03_fill_defs :
+  (forall pbytes s, abound pbytes s = N.min (N.of_nat (length (aslots s))) (pmax pbytes - 1)) /\
+  (forall pbytes s, afill pbytes s [] = Some s) /\
+  (forall pbytes s c r, afill pbytes s (c :: r) =
+     match astep_c pbytes s (AInsert c) with
+     | Ok (s', ABool true, _) => afill pbytes s' r
+     | _ => None
+     end).
+Proof. exact (conj (fun _ _ => eq_refl) (conj (fun _ _ => eq_refl) (fun _ _ _ _ => eq_refl))). Qed.
+Print Assumptions C03_fill_defs.
+
+(* any list of distinct new values that fits is accepted completely, lands in the set, disturbs no other key *)
+Theorem C03_fill_fits : forall pbytes cs s, ainv pbytes s -> NoDup (map fst cs) ->
+  (forall c, In c cs -> as_find (aabs s) (fst c) = None) ->
+  alen s + N.of_nat (length cs) <= abound pbytes s ->
+  exists s', afill pbytes s cs = Some s' /\ ainv pbytes s' /\
+    alen s' = alen s + N.of_nat (length cs) /\ abound pbytes s' = abound pbytes s /\
+    (forall c, In c cs -> as_find (aabs s') (fst c) = Some c) /\
+    (forall k, ~ In k (map fst cs) -> as_find (aabs s') k = as_find (aabs s) k).
+Proof. exact afill_fits. Qed.
+Print Assumptions C03_fill_fits.
+
+(* ... and exactly that many: afterwards every further insert is refused *)
+Theorem C03_fill_exact : forall pbytes cs s, ainv pbytes s -> NoDup (map fst cs) ->
+  (forall c, In c cs -> as_find (aabs s) (fst c) = None) ->
+  alen s + N.of_nat (length cs) = abound pbytes s ->
+  exists s', afill pbytes s cs = Some s' /\ ainv pbytes s' /\ alen s' = abound pbytes s' /\
+    (forall c, In c cs -> as_find (aabs s') (fst c) = Some c) /\
+    (forall c s'' b n, astep_c pbytes s' (AInsert c) = Ok (s'', ABool b, n) -> b = false).
+Proof. exact afill_exact. Qed.
+Print Assumptions C03_fill_exact.
+
 (* non-vacuity: one-byte prefix, four slots, canary cells around the buffer *)
 Example C03_example :
   let ops := [AInsert (5, 50); AInsert (3, 30); AInsert (9, 90); AInsert (3, 31); ATake (5, 0); ADeref; ALen]%Z in
@@ -190,3 +223,12 @@ Example C03_clauses_example :
     exists s3, astep_c 1 s2 (ARemove (5, 0)%Z) = Ok (s3, ABool true, 0%N) /\
       (exists k, aget_val s3 (5, 0)%Z = Ok (None, k)) /\ (exists k, aget_val s3 (3, 0)%Z = Ok (Some (3, 30)%Z, k)).
 Proof. exact clauses_example. Qed.
+
+Example C03_fill_example :
+  let s0 := ainit_c [(7, 7)%Z] [(8, 8)%Z] 3 in
+  exists s1, astep_c 1 s0 (AInsert (5, 50)%Z) = Ok (s1, ABool true, 0%N) /\
+    abound 1 s1 = 3%N /\ alen s1 = 1%N /\
+    exists s2, afill 1 s1 [(9, 90); (2, 20)]%Z = Some s2 /\ alen s2 = 3%N /\
+      aabs s2 = [(2, 20); (5, 50); (9, 90)]%Z /\
+      exists n, astep_c 1 s2 (AInsert (4, 40)%Z) = Ok (s2, ABool false, n).
+Proof. exact afill_example. Qed.
